@@ -8,7 +8,7 @@ func init() {
 			n := map[string]int{"quick": 1, "thorough": 2}[tier]
 			ci := f4Job("corpus-interfere", "VerifCorpusInterfere", 0, []string{"ran"}, []string{"C11-corpus"},
 				"the repository's example programs (/repo/test/*.rb with a plain invocation and at most 60 lines; quick tier: a sample of 40 chosen by VERIF_SEED, thorough tier: all) x one of 4 independent fragments (conditional, array + block, builtin call on a union, hash + index; fresh names, no class or method defined) inserted at a solver-chosen top-level statement boundary (both neighbouring rows unindented, complete statements; programs with heredocs left out); program alone vs program + fragment, outputs equal up to the row shift")
-			ci.Config, ci.Budget = "", 400000000
+			ci.Config, ci.Budget = "", 80000000
 			return []*Job{ci, f4Job("interfere", "VerifInterfere", n, []string{"ran"}, []string{"C11-shift"},
 				"host program (20 hosts: if/else narrowing, builtin calls, def+call, class method, do-block, case/in, brace block+elsif, guard clause, modifier-unless, index expressions, splat method, keyword errors, operator assignments, while + case/when, nested index, value-less guard clause, explicit returns; leaf kinds solver variables) x independent fragment (17, none defines a class or a method: conditional, array literal, builtin call on a union, block, string call, modifier-if, while loop, hash literal + lookup, index read/write, string index, failing builtin call, unless/else, case/when, ternary, ||=, brace block); quick tier: the first 12 x 8 pairs in full and a quarter of the others, thorough: all 306 pairs; x every statement boundary of the host that is not the last statement of its body; host alone vs host+fragment in one path (Snapshot/Restore)")}
 		},
@@ -25,7 +25,7 @@ func init() {
 			corpus := f4Job("corpus-layout", "VerifCorpusLayout", 0, []string{"ran"}, []string{"C06-corpus"},
 				"the repository's example programs (/repo/test/*.rb with a plain invocation and at most 60 lines; quick tier: a sample of 40 chosen by VERIF_SEED, thorough tier: all) x a blank line or a comment-only line inserted before a solver-chosen row (every row, and after the last); original vs edited program in one path, outputs equal up to the row shift")
 			corpus.Config = ""
-			corpus.Budget = 400000000
+			corpus.Budget = 80000000
 			return []*Job{corpus, f4Job("layout", "VerifLayout", n, []string{"ran"}, []string{"C06-shift"},
 				"[job layout] layout edits on the host programs (10; leaf kinds solver variables): a blank line or a comment-only line inserted before every row (top level, class, def, if/elsif/else, case/in, do-block bodies), the trailing newline removed, a newline added inside one or both of two string literals (incl. the identical-content cases); edited vs original program in one path"),
 				{Name: "comment-line-n0", Pkg: "ti/parser", Entry: "VerifCommentLine", N: 0, Budget: 200000, Reach: []string{"lexed"}, Asserts: []string{"C06-comment-tokens"}, Replay: "kernel",
